@@ -164,8 +164,7 @@ CLAIMS = {
              'for every cell: each pin once, every name expands and no name is defined twice, every output defined; and for every purely '
              'combinational cell whose name belongs to a family (AND/OR/NAND/NOR/XOR/XNOR-n, BUF/INV variants, AO/OA/AOI/OAI with the '
              'library\'s pin grouping, MUX2/MUX4, half/full adders by pin name) all outputs equal the family function on all input rows, '
-             'evaluated with the simulator\'s own prefix table and LUTs. The translator is validated against TechLib.cells (names, pin '
-             'tables, LogicSim truth tables) exhaustively.',
+             'evaluated with the simulator\'s own prefix table and LUTs. TEXT LEVEL: TechLib.__init__\'s text processing (re.split at \';\\s+\', name pattern up to the first blank, bench parsing with the Coq lexer/parser of Model/BenchText.v, pin tables in io order, brace-product expansion) is transcribed in Model/TechLibText.v and PROVED by evaluation to yield exactly the translated cell lists on the five library strings, which the translator now emits verbatim (C19_text_matches_translation), so the translator\'s own re-implementation is no longer trusted; expand_names is proved to be the itertools product in order, with the exact condition under which names are distinct (and a witness that distinct alternatives alone do not suffice). Validated against TechLib.cells (names, pin tables, LogicSim truth tables) exhaustively and against TechLib(text) on generated library texts incl. malformed ones.',
         design_ref='5/C19',
         note='The family specification Model/TechlibSpec.v is trusted. Sequential, tristate, clock-gating, isolation, decoder, filler and tie cells get the pin theorems only.'),
     'C10': dict(
@@ -227,7 +226,7 @@ CLAIMS = {
     'C11': dict(
         technique='Coq proofs over a hand transcription of the elaboration helpers of verilog.py and of the bench elaborator (exact correspondence on generated '
                   'tokens / modules / bench files) + differential oracle with generator-owned netlists rendered as Verilog and bench text',
-        text='Proof (partial by construction: the lark grammars and passes 1-2 of VerilogTransformer.module are outside the model). Proved for ALL inputs over '
+        text='Proof (bench format full from TEXT; Verilog: helpers, pass 0 and ports proved, module passes 1-2 being integrated; Verilog grammar by correspondence). BENCH TEXT: Model/BenchText.v is a lexer + parser for exactly the language lark accepts for bench.py\'s grammar (contextual keywords, comments, CR/LF corner cases determined by running lark); proved: parse(print l) = l for well-formed statements, insensitivity to ignored text, a declarative characterisation of the accepted texts (C11_bench_language), keyword assignments rejected; the wiring theorems now start from text (C11_bench_text_wiring). Compared with the real lark parser / bench.parse on generated, malformed and token-soup texts. Proved for ALL inputs over '
              'Model/VerilogElab.v: [l:r] expands to |l-r|+1 bit names in declared direction (also for part selects), bit names are injective; w\'bN / w\'dN / '
              'w\'hN give exactly w one-bit constants, MSB first, of value N mod 2^w; concat = flat_map; the port position table numbers the port bits 0..n-1 in '
              'port-list order with bus bits in declared range order, no position twice, and io_nodes is exactly that list with the declared directions (no '
@@ -283,7 +282,7 @@ CLAIMS = {
     'C09': dict(
         technique='Coq proof of a graph-consistency invariant for a Gallina transcription of circuit.py over all edit histories; '
                   'state-by-state correspondence on random histories; independent invariant oracle with shrinking',
-        text='Proof (full for every edit except substitute). Model/Circuit.v transcribes GrowingList, IndexList, Node, Line and the Circuit '
+        text='Proof (full for all twelve public edit operations). Model/Circuit.v transcribes GrowingList, IndexList, Node, Line and the Circuit '
              'mutators with creation-order ids for object identity. Proved for ALL circuits / ALL histories of well-formed use '
              '(fresh names, explicit pins only on free positions and on forks only the next one, nodes removed after their lines, ports not '
              'removed): Node(), Line() (implicit/explicit pins), Line.remove (swap-with-last, fork squeeze and renumbering), Node.remove, '
@@ -291,14 +290,15 @@ CLAIMS = {
              'preserve: indices = list positions, name lookups exact, every line referenced from exactly the two pins it records, no pin '
              'refers to a removed line, fork outputs gap-free, every io_nodes entry a listed node; copy = pickle round trip and both keep '
              'the canonical form; Circuit.stats equals the counts over the containers; the executable checker cinv_b is sound. '
-             'substitute / resolve_tlib_cells: NOT a theorem -- modelled, compared with the code after every step and checked with the '
-             'sound executable invariant on every generated history and on every cell of the five libraries; a Coq witness shows the '
-             'invariant failed for the code before commit 119be80 (dangling logic removed while outputs were still detached).',
+             'substitute and resolve_tlib_cells are proved as well (C09_substitute, C09_resolve: a weak invariant that exempts the temporarily detached line ends is carried '
+             'through the five phases of substitute; the resolve loop skips instances removed by an earlier clean-up, as the code does since fix 11c77ac), so ALL TWELVE public '
+             'operations are inside `supported` and C09_history_inv_all covers every history. The extra preconditions on implementation circuits (no port twice, ports are forks, '
+             'designated cell not a port, no fork driving a pure output port) are evaluated on the inputs, and each is shown NECESSARY by a machine-checked witness reproduced on '
+             'the real code; witnesses also record the two pre-fix defects (clean-up inside the output loop, substitution of removed instances).',
         design_ref='5/C09',
         note='Modelled not verified: Model/Circuit.v is a hand transcription tied to circuit.py by comparing the complete canonical state '
              '(node/line tables with pins, dicts, io list, stats, raising behaviour) after EVERY step of random histories; object identity '
-             'is observed by wrapping Node/Line.__init__ in the harness. Out of the proved domain: substitute/resolve_tlib_cells '
-             '(stretch item; correspondence + oracle only), negative pin numbers, nodes of another circuit, non-ASCII kind names in stats.'),
+             'is observed by wrapping Node/Line.__init__ in the harness. Out of the proved domain: implementation circuits violating the shape preconditions (API misuse, witnesses given), negative pin numbers, nodes of another circuit, non-ASCII kind names in stats.'),
 }
 
 NOT_YET = 'check not built yet in this session (see DESIGN.md section 8 build order); no claim is made'
